@@ -537,3 +537,303 @@ Section Plain.
       rewrite Hz. cbn [negb]. split; [exact En2|]. split; [exact B2|]. split; [exact Ld2|]. split; [exact A2|reflexivity].
   Qed.
 End Plain.
+
+(** ---------- whatever the encoder accepts, the decoder reads (C01, first sentence, plain layouts) ---------- *)
+Lemma sign_fix_not_err k bits v len e : sign_fix k bits v len <> Err e.
+Proof.
+  destruct k; cbn [sign_fix]; unfold usub, shl; try discriminate.
+  - destruct (1 <=? len); cbn [bind]; [|discriminate]. destruct ((0 <=? len - 1) && (len - 1 <? bits)); cbn [bind]; [|discriminate].
+    destruct (_ || _); [discriminate|]. destruct ((0 <=? len) && (len <? bits)); cbn [bind]; discriminate.
+  - destruct (1 <=? len); cbn [bind]; [|discriminate]. destruct ((0 <=? len - 1) && (len - 1 <? bits)); cbn [bind]; [|discriminate].
+    destruct (_ =? 0); [discriminate|]. cbn [bind]. destruct (in_carrier _ _ _); discriminate.
+Qed.
+
+Lemma parse_ok k bits data off len : 8 <= bits -> 1 <= len <= bits -> 0 <= off -> off + len <= 8 * zlen data -> bytes_ok data = true ->
+  exists c, parse k bits data off len = Ok (c, off + len).
+Proof.
+  intros Hb Hl Ho Hfit Hbd. destruct (parse_bits k bits data off len Hb Hl Ho Hfit Hbd) as [v [Hc [_ P]]]. rewrite P.
+  pose proof (sign_fix_no_panic k bits v len Hb Hl Hc) as Np.
+  destruct (sign_fix k bits v len) as [c|e|] eqn:E; [exists c; reflexivity|exfalso; exact (sign_fix_not_err _ _ _ _ _ E)|contradiction].
+Qed.
+
+Lemma encode_field_decodes fs d o v d' o' : field_rt_ok fs = true -> field_dec_ok fs = true -> bytes_ok d = true -> 0 <= o ->
+  encode_field fs (d, o) v = Ok (d', o') ->
+  o' = o + f_len fs /\ bytes_ok d' = true /\ zlen d' = zlen d /\ agree d d' 0 o /\ exists v', decode_field fs d' o = Ok (v', o').
+Proof.
+  intros Hrt Hok Hb Ho E. destruct (field_dec_ok_widths fs Hok) as [W1 W2].
+  destruct (encode_field_frame fs d o v d' o' Hok Ho Hb E) as [-> [Hfit [L [B A]]]].
+  split; [reflexivity|]. split; [exact B|]. split; [exact L|]. split; [exact A|].
+  destruct (parse_ok (f_ck fs) (f_cbits fs) d' o (f_len fs) W1 W2 Ho ltac:(lia) B) as [c P].
+  destruct (field_roundtrip fs d' o c _ Hrt Hok B Ho P) as [v' [D _]]. exists v'. exact D.
+Qed.
+
+Lemma len_field_rt fs d o n d' o' : field_dec_ok fs = true -> len_field_ok fs = true -> bytes_ok d = true -> 0 <= o ->
+  0 <= n < 2 ^ f_len fs -> encode_field fs (d, o) (VInt n) = Ok (d', o') -> decode_field fs d' o = Ok (VInt n, o').
+Proof.
+  intros Hok Hl Hb Ho Hn E. destruct (field_dec_ok_widths fs Hok) as [W1 W2].
+  unfold len_field_ok in Hl.
+  destruct (f_dt fs) eqn:Edt; try discriminate. destruct (f_ck fs) eqn:Eck; try discriminate.
+  destruct (f_res fs) eqn:Eres; try discriminate. destruct (f_bias fs) eqn:Ebias; try discriminate. destruct (f_inv fs) eqn:Einv; try discriminate.
+  assert (Hp : 2 ^ f_len fs <= 2 ^ f_cbits fs) by (apply Z.pow_le_mono_r; lia).
+  assert (Hp64 : 2 ^ f_len fs <= 2 ^ 64).
+  { unfold field_dec_ok in Hok. rewrite Edt, Eres, Ebias, Eck in Hok. cbn [dty_int num_int] in Hok.
+    apply andb_true_iff in Hok. destruct Hok as [_ Hs]. unfold int_safe in Hs. cbv zeta in Hs. cbn [fst snd pat_hi pat_lo] in Hs.
+    repeat (apply andb_true_iff in Hs; destruct Hs as [Hs ?]).
+    match goal with X : in_carrier KU 64 (2 ^ f_len fs - 1) = true |- _ => unfold in_carrier, cmin, cmax in X; cbn [signed_kind] in X; apply andb_true_iff in X; destruct X as [_ X]; apply Z.leb_le in X end. lia. }
+  unfold encode_field in E. rewrite Einv in E. unfold encode_core in E. rewrite Edt, Eres, Ebias in E. cbn [dty_int num_int fst snd] in E.
+  assert (Hc64 : in_carrier KU 64 n = true) by (unfold in_carrier, cmin, cmax; cbn [signed_kind]; apply andb_true_iff; split; [apply Z.leb_le; lia|apply Z.leb_le; lia]).
+  rewrite Hc64 in E. unfold ienc_core in E. cbn [bind] in E. rewrite Eck in E.
+  assert (Hw : wrapc KU (f_cbits fs) n = n) by (apply wrapc_in_range; [lia|unfold cmin, cmax; cbn [signed_kind]; lia]).
+  rewrite Hw in E.
+  assert (Hr : representable KU (f_len fs) n) by (cbn [representable]; lia).
+  destruct (put_frame KU (f_cbits fs) d o n (f_len fs) d' o' W1 W2 Ho Hb E) as [-> [Hfit _]].
+  destruct (put_parse_roundtrip KU (f_cbits fs) d o n (f_len fs) W1 W2 Ho Hfit Hb Hr) as [d2 [Pu Pa]].
+  rewrite E in Pu. inversion Pu; subst d2.
+  unfold decode_field. rewrite Eck, Pa. cbn [bind]. unfold decode_core. rewrite Edt, Eres, Ebias. cbn [dty_int num_int idec_core fst snd bind]. rewrite Einv.
+  assert (Hw64 : wrapc KU 64 n = n) by (apply wrapc_in_range; [lia|unfold cmin, cmax; cbn [signed_kind]; lia]).
+  rewrite Hw64. reflexivity.
+Qed.
+
+Section Accept.
+  Variable sigt : gnss -> sigtable.
+  Variable ssr59 ssr65 : sigtable.
+  Variable cap59 cap65 : Z.
+  Notation dec := (decode_frag sigt ssr59 ssr65 cap59 cap65).
+  Notation enc := (encode_frag sigt ssr59 ssr65 cap59 cap65).
+
+  (** counts cannot wrap: every capacity is below 2^(width of its count field) *)
+  Fixpoint counts_ok (f : frag) : bool :=
+    match f with
+    | FStr cap lb => cap <? 2 ^ lb
+    | FStruct l => (fix all (l : list frag) : bool := match l with [] => true | x :: r => counts_ok x && all r end) l
+    | FLenMid f1 lenf f2 elem cap =>
+        (fix all (l : list frag) : bool := match l with [] => true | x :: r => counts_ok x && all r end) f1
+        && (cap <? 2 ^ f_len lenf)
+        && (fix all (l : list frag) : bool := match l with [] => true | x :: r => counts_ok x && all r end) f2
+        && counts_ok elem
+    | FVecLen elem cap lb => (cap <? 2 ^ lb) && counts_ok elem
+    | FGrid16 elem => counts_ok elem
+    | _ => true
+    end.
+  Lemma all_counts_eq l : (fix all (l : list frag) : bool := match l with [] => true | x :: r => counts_ok x && all r end) l = forallb counts_ok l.
+  Proof. induction l as [|x r IH]; [reflexivity|]. cbn [forallb]. f_equal; exact IH. Qed.
+
+  Notation go_dec := (fun data => fix go (fl : list frag) (off : Z) {struct fl} : outcome (list val * Z) :=
+         match fl with
+         | [] => Ok ([], off)
+         | f' :: fl' => '(x, off1) <- dec f' data off ;; '(r, off2) <- go fl' off1 ;; Ok (x :: r, off2)
+         end).
+  Notation el_dec := (fun elem data => fix elems (n : nat) (off : Z) {struct n} : outcome (list val * Z) :=
+         match n with
+         | O => Ok ([], off)
+         | S n' => '(x, o1) <- dec elem data off ;; '(r, o2) <- elems n' o1 ;; Ok (x :: r, o2)
+         end).
+  Notation go_enc := (fix go (fl : list frag) (vs : list val) (st : astate) {struct fl} : outcome astate :=
+         match fl, vs with
+         | [], [] => Ok st
+         | f' :: fl', v' :: vs' => st' <- enc f' st v' ;; go fl' vs' st'
+         | _, _ => Panic
+         end).
+  Notation el_enc := (fun elem => fix elems (l : list val) (st : astate) {struct l} : outcome astate :=
+         match l with
+         | [] => Ok st
+         | x :: r => st' <- enc elem st x ;; elems r st'
+         end).
+
+  Definition acc_at (f : frag) : Prop :=
+    plain f = true -> counts_ok f = true -> forall d o v d' o', bytes_ok d = true -> 0 <= o ->
+      enc f (d, o) v = Ok (d', o') ->
+      o <= o' /\ bytes_ok d' = true /\ zlen d' = zlen d /\ agree d d' 0 o /\ exists v', dec f d' o = Ok (v', o').
+
+  Lemma list_acc : forall fl, Forall acc_at fl -> forallb plain fl = true -> forallb counts_ok fl = true ->
+    forall vs d o d' o', bytes_ok d = true -> 0 <= o -> go_enc fl vs (d, o) = Ok (d', o') ->
+      o <= o' /\ bytes_ok d' = true /\ zlen d' = zlen d /\ agree d d' 0 o /\ exists vs', go_dec d' fl o = Ok (vs', o').
+  Proof.
+    induction 1 as [|f fl Hf _ IH]; intros Hp Hc vs d o d' o' Hb Ho H.
+    - destruct vs; [|discriminate]. inversion H; subst. split; [lia|]. split; [exact Hb|]. split; [reflexivity|]. split; [apply agree_refl|].
+      exists []. reflexivity.
+    - cbn [forallb] in Hp, Hc. apply andb_true_iff in Hp, Hc. destruct Hp as [Hp1 Hp2]. destruct Hc as [Hc1 Hc2].
+      destruct vs as [|x vs]; [discriminate|].
+      destruct (enc f (d, o) x) as [[d1 o1]|e|] eqn:E1; cbn [bind] in H; try discriminate.
+      destruct (Hf Hp1 Hc1 d o x d1 o1 Hb Ho E1) as [M1 [B1 [L1 [A1 [x' D1]]]]].
+      destruct (IH Hp2 Hc2 vs d1 o1 d' o' B1 ltac:(lia) H) as [M2 [B2 [L2 [A2 [vs' D2]]]]].
+      split; [lia|]. split; [exact B2|]. split; [lia|]. split.
+      + eapply agree_trans; [exact A1|]. apply (agree_sub _ _ 0 o1); [exact A2|lia|lia].
+      + exists (x' :: vs').
+        rewrite (decode_frag_ext sigt ssr59 ssr65 cap59 cap65 f Hp1 d1 d' o x' o1 B1 B2 Ho D1 ltac:(apply (agree_sub _ _ 0 o1); [exact A2|lia|lia])).
+        cbn [bind]. rewrite D2. reflexivity.
+  Qed.
+
+  Lemma elems_acc elem : acc_at elem -> plain elem = true -> counts_ok elem = true ->
+    forall l d o d' o', bytes_ok d = true -> 0 <= o -> el_enc elem l (d, o) = Ok (d', o') ->
+      o <= o' /\ bytes_ok d' = true /\ zlen d' = zlen d /\ agree d d' 0 o /\ exists l', el_dec elem d' (length l) o = Ok (l', o').
+  Proof.
+    intros He Hp Hc. induction l as [|x l IH]; intros d o d' o' Hb Ho H.
+    - inversion H; subst. split; [lia|]. split; [exact Hb|]. split; [reflexivity|]. split; [apply agree_refl|]. exists []. reflexivity.
+    - destruct (enc elem (d, o) x) as [[d1 o1]|e|] eqn:E1; cbn [bind] in H; try discriminate.
+      destruct (He Hp Hc d o x d1 o1 Hb Ho E1) as [M1 [B1 [L1 [A1 [x' D1]]]]].
+      destruct (IH d1 o1 d' o' B1 ltac:(lia) H) as [M2 [B2 [L2 [A2 [l' D2]]]]].
+      split; [lia|]. split; [exact B2|]. split; [lia|]. split.
+      + eapply agree_trans; [exact A1|]. apply (agree_sub _ _ 0 o1); [exact A2|lia|lia].
+      + exists (x' :: l'). cbn [length].
+        rewrite (decode_frag_ext sigt ssr59 ssr65 cap59 cap65 elem Hp d1 d' o x' o1 B1 B2 Ho D1 ltac:(apply (agree_sub _ _ 0 o1); [exact A2|lia|lia])).
+        cbn [bind]. rewrite D2. reflexivity.
+  Qed.
+End Accept.
+
+Lemma put_bytes_room : forall l d o d' o', bytes_ok d = true -> 0 <= o -> put_bytes (d, o) l = Ok (d', o') ->
+  o' = o + 8 * zlen l /\ (l <> [] -> o' <= 8 * zlen d).
+Proof.
+  induction l as [|b l IH]; intros d o d' o' Hb Ho H; cbn [put_bytes fst snd] in H.
+  - inversion H; subst. unfold zlen; cbn. split; [lia|]. intros X; contradiction.
+  - destruct (put KU 8 d o b 8) as [[d1 o1]|e|] eqn:P; cbn [bind] in H; try discriminate.
+    destruct (put_frame KU 8 d o b 8 d1 o1 ltac:(lia) ltac:(lia) Ho Hb P) as [-> [Hfit [L1 [B1 _]]]].
+    destruct (IH d1 (o + 8) d' o' B1 ltac:(lia) H) as [-> Hr]. rewrite zlen_cons. split; [lia|]. intros _.
+    destruct l as [|c l']; [unfold zlen in *; cbn in *; lia|]. rewrite <- L1. apply Hr. discriminate.
+Qed.
+
+Lemma encode_str_decodes cap lb d o v d' o' : 1 <= lb <= 8 -> 0 <= cap < 2 ^ lb -> bytes_ok d = true -> 0 <= o ->
+  encode_str cap lb (d, o) v = Ok (d', o') ->
+  o <= o' /\ bytes_ok d' = true /\ zlen d' = zlen d /\ agree d d' 0 o /\ exists v', decode_str cap lb d' o = Ok (v', o').
+Proof.
+  intros Hl Hc Hb Ho H. unfold encode_str in H. destruct v as [| | | | | | |cs|]; try discriminate. cbn [fst snd] in H.
+  set (bytes := df88591_from_str cap cs) in *.
+  assert (Hbytes : bytes = map from_char (firstn (Z.to_nat cap) cs)) by (apply df88591_from_str_spec; lia).
+  assert (Fb : Forall nz_byte bytes).
+  { rewrite Hbytes. apply Forall_forall. intros x Hx. apply in_map_iff in Hx. destruct Hx as [c [<- _]]. apply from_char_range. }
+  assert (Hn : 0 <= zlen bytes <= cap).
+  { split; [apply zlen_nonneg|]. rewrite Hbytes. unfold zlen. rewrite map_length. pose proof (firstn_le_length (Z.to_nat cap) cs). lia. }
+  assert (H256 : zlen bytes mod 256 = zlen bytes).
+  { apply Z.mod_small. split; [lia|]. apply Z.le_lt_trans with cap; [lia|]. apply Z.lt_le_trans with (2 ^ lb); [lia|]. change 256 with (2 ^ 8). apply Z.pow_le_mono_r; lia. }
+  rewrite H256 in H.
+  destruct (put KU 8 d o (zlen bytes) lb) as [[d1 o1]|e|] eqn:Pu; cbn [bind] in H; try discriminate.
+  destruct (put_frame KU 8 d o (zlen bytes) lb d1 o1 ltac:(lia) ltac:(lia) Ho Hb Pu) as [-> [Hfit [L1 [B1 A1]]]].
+  assert (Hr : representable KU lb (zlen bytes)) by (cbn [representable]; lia).
+  destruct (put_parse_roundtrip KU 8 d o (zlen bytes) lb ltac:(lia) ltac:(lia) Ho Hfit Hb Hr) as [d1' [Pu' Pa]].
+  rewrite Pu in Pu'. inversion Pu'; subst d1'.
+  destruct (put_bytes_room bytes d1 (o + lb) d' o' B1 ltac:(lia) H) as [-> Hroom].
+  assert (Hfit2 : o + lb + 8 * zlen bytes <= 8 * zlen d1).
+  { destruct (Z.eq_dec (zlen bytes) 0) as [E0|E0]; [rewrite E0; lia|]. apply Hroom. intros X. apply E0. rewrite X. reflexivity. }
+  destruct (put_bytes_fix bytes d1 (o + lb) [] Fb B1 ltac:(lia) Hfit2) as [d2 [Pu2 [B2 [L2 [A2 Pa2]]]]].
+  rewrite H in Pu2. inversion Pu2; subst d2.
+  split; [lia|]. split; [exact B2|]. split; [lia|]. split.
+  - eapply agree_trans; [exact A1|]. apply (agree_sub _ _ 0 (o + lb)); [exact A2|lia|lia].
+  - unfold decode_str.
+    rewrite <- (parse_ext KU 8 d1 d' o lb ltac:(lia) ltac:(lia) Ho B1 B2 ltac:(apply (agree_sub _ _ 0 (o + lb)); [exact A2|lia|lia])), Pa. cbn [bind].
+    destruct (Z.ltb_spec cap (zlen bytes)); [lia|].
+    replace (Z.to_nat (zlen bytes)) with (length bytes) by (unfold zlen; lia). rewrite Pa2. cbn [bind]. eexists. reflexivity.
+Qed.
+
+Section AcceptMain.
+  Variable sigt : gnss -> sigtable.
+  Variable ssr59 ssr65 : sigtable.
+  Variable cap59 cap65 : Z.
+  Notation dec := (decode_frag sigt ssr59 ssr65 cap59 cap65).
+  Notation enc := (encode_frag sigt ssr59 ssr65 cap59 cap65).
+  Notation acc_at := (acc_at sigt ssr59 ssr65 cap59 cap65).
+  Notation go_dec := (fun data => fix go (fl : list frag) (off : Z) {struct fl} : outcome (list val * Z) :=
+         match fl with
+         | [] => Ok ([], off)
+         | f' :: fl' => '(x, off1) <- dec f' data off ;; '(r, off2) <- go fl' off1 ;; Ok (x :: r, off2)
+         end).
+  Notation el_dec := (fun elem data => fix elems (n : nat) (off : Z) {struct n} : outcome (list val * Z) :=
+         match n with
+         | O => Ok ([], off)
+         | S n' => '(x, o1) <- dec elem data off ;; '(r, o2) <- elems n' o1 ;; Ok (x :: r, o2)
+         end).
+  Notation go_enc := (fix go (fl : list frag) (vs : list val) (st : astate) {struct fl} : outcome astate :=
+         match fl, vs with
+         | [], [] => Ok st
+         | f' :: fl', v' :: vs' => st' <- enc f' st v' ;; go fl' vs' st'
+         | _, _ => Panic
+         end).
+  Notation el_enc := (fun elem => fix elems (l : list val) (st : astate) {struct l} : outcome astate :=
+         match l with
+         | [] => Ok st
+         | x :: r => st' <- enc elem st x ;; elems r st'
+         end).
+
+  Theorem accepted_decodes : forall f, acc_at f.
+  Proof.
+    apply frag_ind'; unfold RoundTrip.acc_at; cbn [plain counts_ok]; try discriminate.
+    - (* field *)
+      intros fs Hp _ d o v d' o' Hb Ho E. apply andb_true_iff in Hp. destruct Hp as [Hrt Hok].
+      cbn [encode_frag decode_frag] in *. destruct (field_dec_ok_widths fs Hok) as [_ W].
+      destruct (encode_field_decodes fs d o v d' o' Hrt Hok Hb Ho E) as [-> [B [L [A Dv]]]].
+      split; [lia|]. split; [exact B|]. split; [exact L|]. split; [exact A|exact Dv].
+    - (* descriptor string *)
+      intros cap lb Hp Hc d o v d' o' Hb Ho E. apply andb_true_iff in Hp. destruct Hp as [Hp L3]. apply andb_true_iff in Hp. destruct Hp as [L1 L2].
+      apply Z.leb_le in L1, L2, L3. apply Z.ltb_lt in Hc. cbn [encode_frag decode_frag] in *.
+      exact (encode_str_decodes cap lb d o v d' o' ltac:(lia) ltac:(lia) Hb Ho E).
+    - (* struct *)
+      intros l Hl Hp Hc d o v d' o' Hb Ho E. rewrite all_plain_eq in Hp. rewrite all_counts_eq in Hc. cbn [encode_frag] in E.
+      destruct v as [| | | | | |vs| |]; try discriminate.
+      destruct (list_acc sigt ssr59 ssr65 cap59 cap65 l Hl Hp Hc vs d o d' o' Hb Ho E) as [M [B [L [A [vs' D]]]]].
+      split; [exact M|]. split; [exact B|]. split; [exact L|]. split; [exact A|]. exists (VStruct vs'). cbn [decode_frag]. rewrite D. reflexivity.
+    - (* length in the middle *)
+      intros f1 lenf f2 elem cap H1 H2 He Hp Hc d o v d' o' Hb Ho E.
+      rewrite (all_plain_eq f1), (all_plain_eq f2) in Hp. rewrite (all_counts_eq f1), (all_counts_eq f2) in Hc.
+      apply andb_true_iff in Hp. destruct Hp as [Hp Pe]. apply andb_true_iff in Hp. destruct Hp as [Hp P2]. apply andb_true_iff in Hp. destruct Hp as [P1 Pl].
+      apply andb_true_iff in Pl. destruct Pl as [Pl Pl3]. apply andb_true_iff in Pl. destruct Pl as [Pl1 Pl2].
+      apply andb_true_iff in Hc. destruct Hc as [Hc Ce]. apply andb_true_iff in Hc. destruct Hc as [Hc C2]. apply andb_true_iff in Hc. destruct Hc as [C1 Cl]. apply Z.ltb_lt in Cl.
+      cbn [encode_frag] in E. destruct v as [| | | | | |vs| |]; try discriminate.
+      destruct (skipn (length f1 + length f2) vs) as [|lv rest] eqn:Esk; [discriminate|].
+      destruct lv as [| | | | |l| | |]; try discriminate. destruct rest as [|? ?]; [|discriminate].
+      destruct (cap <? zlen l) eqn:Ecap; [discriminate|]. apply Z.ltb_ge in Ecap.
+      destruct (go_enc f1 (firstn (length f1) vs) (d, o)) as [[d1 o1]|e|] eqn:E1; cbn [bind] in E; try discriminate.
+      destruct (encode_field lenf (d1, o1) (VInt (zlen l))) as [[d2 o2]|e|] eqn:E2; cbn [bind] in E; try discriminate.
+      destruct (go_enc f2 (firstn (length f2) (skipn (length f1) vs)) (d2, o2)) as [[d3 o3]|e|] eqn:E3; cbn [bind] in E; try discriminate.
+      destruct (list_acc sigt ssr59 ssr65 cap59 cap65 f1 H1 P1 C1 _ d o d1 o1 Hb Ho E1) as [M1 [B1 [L1 [A1 [vs1' D1]]]]].
+      destruct (encode_field_frame lenf d1 o1 _ d2 o2 Pl2 ltac:(lia) B1 E2) as [-> [Hfit2 [L2 [B2 A2]]]].
+      destruct (field_dec_ok_widths lenf Pl2) as [_ Wl].
+      pose proof (zlen_nonneg l) as Hl0.
+      pose proof (len_field_rt lenf d1 o1 (zlen l) d2 _ Pl2 Pl3 B1 ltac:(lia) ltac:(lia) E2) as D2.
+      destruct (list_acc sigt ssr59 ssr65 cap59 cap65 f2 H2 P2 C2 _ d2 (o1 + f_len lenf) d3 o3 B2 ltac:(lia) E3) as [M3 [B3 [L3 [A3 [vs2' D3]]]]].
+      destruct (elems_acc sigt ssr59 ssr65 cap59 cap65 elem He Pe Ce l d3 o3 d' o' B3 ltac:(lia) E) as [M4 [B4 [L4 [A4 [l' D4]]]]].
+      split; [lia|]. split; [exact B4|]. split; [lia|]. split.
+      + eapply agree_trans; [exact A1|]. eapply agree_trans; [apply (agree_sub _ _ 0 o1); [exact A2|lia|lia]|].
+        eapply agree_trans; [apply (agree_sub _ _ 0 (o1 + f_len lenf)); [exact A3|lia|lia]|].
+        apply (agree_sub _ _ 0 o3); [exact A4|lia|lia].
+      + assert (A24 : agree d2 d' 0 (o1 + f_len lenf)).
+        { eapply agree_trans; [exact A3|]. apply (agree_sub _ _ 0 o3); [exact A4|lia|lia]. }
+        assert (A14 : agree d1 d' 0 o1).
+        { eapply agree_trans; [exact A2|]. apply (agree_sub _ _ 0 (o1 + f_len lenf)); [exact A24|lia|lia]. }
+        eexists. cbn [decode_frag].
+        rewrite (list_ext' sigt ssr59 ssr65 cap59 cap65 f1 P1 d1 d' o vs1' o1 B1 B4 Ho D1 ltac:(apply (agree_sub _ _ 0 o1); [exact A14|lia|lia])). cbn [bind].
+        rewrite <- (decode_field_ext lenf d2 d' o1 Pl2 ltac:(lia) B2 B4 ltac:(apply (agree_sub _ _ 0 (o1 + f_len lenf)); [exact A24|lia|lia])), D2. cbn [bind].
+        rewrite (list_ext' sigt ssr59 ssr65 cap59 cap65 f2 P2 d3 d' (o1 + f_len lenf) vs2' o3 B3 B4 ltac:(lia) D3 ltac:(apply (agree_sub _ _ 0 o3); [exact A4|lia|lia])). cbn [bind].
+        destruct (Z.ltb_spec cap (zlen l)); [lia|].
+        replace (Z.to_nat (zlen l)) with (length l) by (unfold zlen; lia). rewrite D4. reflexivity.
+    - (* count-prefixed list *)
+      intros elem cap lb He Hp Hc d o v d' o' Hb Ho E.
+      apply andb_true_iff in Hp. destruct Hp as [Hp Pe]. apply andb_true_iff in Hp. destruct Hp as [L1 L2]. apply Z.leb_le in L1, L2.
+      apply andb_true_iff in Hc. destruct Hc as [Cl Ce]. apply Z.ltb_lt in Cl.
+      cbn [encode_frag fst snd] in E. destruct v as [| | | | |l| | |]; try discriminate.
+      destruct (cap <? zlen l) eqn:Ecap; [discriminate|]. apply Z.ltb_ge in Ecap.
+      pose proof (zlen_nonneg l) as Hl0.
+      assert (H16 : zlen l mod 65536 = zlen l).
+      { apply Z.mod_small. split; [lia|]. apply Z.le_lt_trans with cap; [lia|]. apply Z.lt_le_trans with (2 ^ lb); [lia|]. change 65536 with (2 ^ 16). apply Z.pow_le_mono_r; lia. }
+      rewrite H16 in E.
+      destruct (put KU 16 d o (zlen l) lb) as [[d1 o1]|e|] eqn:Pu; cbn [bind] in E; try discriminate.
+      destruct (put_frame KU 16 d o (zlen l) lb d1 o1 ltac:(lia) ltac:(lia) Ho Hb Pu) as [-> [Hfit [Ld1 [B1 A1]]]].
+      assert (Hr : representable KU lb (zlen l)) by (cbn [representable]; lia).
+      destruct (put_parse_roundtrip KU 16 d o (zlen l) lb ltac:(lia) ltac:(lia) Ho Hfit Hb Hr) as [d1' [Pu' Pa]].
+      rewrite Pu in Pu'. inversion Pu'; subst d1'.
+      destruct (elems_acc sigt ssr59 ssr65 cap59 cap65 elem He Pe Ce l d1 (o + lb) d' o' B1 ltac:(lia) E) as [M4 [B4 [L4 [A4 [l' D4]]]]].
+      split; [lia|]. split; [exact B4|]. split; [lia|]. split.
+      + eapply agree_trans; [exact A1|]. apply (agree_sub _ _ 0 (o + lb)); [exact A4|lia|lia].
+      + eexists. cbn [decode_frag].
+        rewrite <- (parse_ext KU 16 d1 d' o lb ltac:(lia) ltac:(lia) Ho B1 B4 ltac:(apply (agree_sub _ _ 0 (o + lb)); [exact A4|lia|lia])), Pa. cbn [bind].
+        destruct (Z.ltb_spec cap (zlen l)); [lia|].
+        replace (Z.to_nat (zlen l)) with (length l) by (unfold zlen; lia). rewrite D4. reflexivity.
+    - (* 16-element grid *)
+      intros elem He Hp Hc d o v d' o' Hb Ho E.
+      cbn [encode_frag] in E. destruct v as [| | | | |l| | |]; try discriminate.
+      destruct (zlen l =? 16) eqn:E16; cbn [negb] in E; [|discriminate]. apply Z.eqb_eq in E16.
+      destruct (elems_acc sigt ssr59 ssr65 cap59 cap65 elem He Hp Hc l d o d' o' Hb Ho E) as [M4 [B4 [L4 [A4 [l' D4]]]]].
+      split; [exact M4|]. split; [exact B4|]. split; [exact L4|]. split; [exact A4|].
+      exists (VList l').
+      change (dec (FGrid16 elem) d' o) with ('(l, off1) <- el_dec elem d' 16%nat o ;; Ok (VList l, off1)).
+      replace 16%nat with (length l) by (unfold zlen in E16; lia). rewrite D4. reflexivity.
+  Qed.
+End AcceptMain.
